@@ -11,7 +11,7 @@ from ..core import e1
 PROPERTY = "C04"
 LEVEL = "exploration"
 RULE = (
-    "lines 'p0 MNEM p1 . UNIT p2 VALUE p3 : p4 DESCR p5' for every (mnemonic(7), unit(15), value(14), description(7)) x "
+    "lines 'p0 MNEM p1 . UNIT p2 VALUE p3 : p4 DESCR p5' for every (mnemonic(8), unit(15), value(14), description(7)) x "
     "section kind {Version, Well, Curves, Parameter, custom title, None} x padding patterns (quick: every pattern with "
     "at most two non-default pads plus the all-padded line; thorough: the full product of the six pad positions over a "
     "reduced field palette), each pad in {'', ' ', '   ', tab, ' tab '}; special forms: time-like values HH:MM[:SS] "
@@ -26,7 +26,7 @@ ASSUMPTIONS = [
     "units have interior dots/colons only; '..' forms are not part of the property",
 ]
 
-MNEMS = ["A", "AB12", "A B", "ÅÄ", "A_1-2", "A(1)", "A#"]
+MNEMS = ["A", "AB12", "A B", "ÅÄ", "A_1-2", "A(1)", "A#", "RUN  NO"]
 UNITS = ["", "m", "K/M3", "hh:mm", "ft.lbf", "°C", "%", "m/s2", "(m)", "[m]", "1000 lbf", "[0,1)", "(m]", "1/32", "m[2]"]
 VALUES = ["", "x", "12", "1.5", "a b", "'q'", '"q"', "(b)", "12-34-12-34W5M", "1.5.2", "a.b", "100 ft", "SEC 12,34 W5M", "(1,2)"]
 DESCRS = ["", "d", "a b", "(x) y", "1 d", "d.e", "2.5 x"]
@@ -183,8 +183,15 @@ def gen_noperiod():
 
 
 def gen_numunit():
+    # a numeric unit set off from the value by two or more blanks / a blank-tab mix: the number alone is the unit
     for num in ("1000", "5", "0012"):
-        for suffix in ("lbf", "psi", "kg/m3"):
+        for gap in ("  ", "   ", " \t", " \t ", "\t "):
+            for value in ("KCL", "x y", "12.5", "°C", "a.b"):
+                for descr in ("", "d"):
+                    for section in SECTIONS:
+                        yield "A.%s%s%s : %s" % (num, gap, value, descr), section, {"name": "A", "unit": num, "value": value, "descr": descr}
+    for num in ("1000", "5", "0012"):
+        for suffix in ("lbf", "psi", "kg/m3", "°C", "%", "м"):
             unit = "%s %s" % (num, suffix)
             for value in ("", "x", "12.5", "a b"):
                 for descr in ("", "d", "a b"):
